@@ -325,6 +325,7 @@ io_thread(void *arg) {
  * threads' epoll_wait()/select() return EINTR at arbitrary moments */
 static pthread_t io_tids[2];
 static atomic_long n_signals;
+static atomic_int stop_signals;
 
 static void
 on_sigusr1(int sig) {
@@ -334,7 +335,7 @@ on_sigusr1(int sig) {
 static void *
 signaller(void *arg) {
   (void)arg;
-  while (!atomic_load(&stop_io)) {
+  while (!atomic_load(&stop_io) && !atomic_load(&stop_signals)) {
     pthread_kill(io_tids[atomic_load(&n_signals) & 1], SIGUSR1);
     atomic_fetch_add(&n_signals, 1);
     usleep(1500);
@@ -538,8 +539,8 @@ dump_stacks(void) {
   char cmd[512];
   if (!path)
     return;
-  snprintf(cmd, sizeof(cmd), "gdb -p %d -batch -ex 'thread apply all bt 14' > %s 2>&1", (int)getpid(),
-           path);
+  snprintf(cmd, sizeof(cmd), "timeout -s KILL 60 gdb -p %d -batch -ex 'handle SIGUSR1 nostop noprint pass' "
+           "-ex 'thread apply all bt 14' > %s 2>&1", (int)getpid(), path);
   if (system(cmd)) {
   }
 }
@@ -667,6 +668,9 @@ main(int argc, char **argv) {
         printf("],\"io\":[\"%ld\",\"%ld\"]}\n", atomic_load(&progress[MAXW]),
                atomic_load(&progress[MAXW + 1]));
         fflush(stdout);
+        /* the debugger stops at every signal the process receives: no more of them now */
+        atomic_store(&stop_signals, 1);
+        usleep(20000);
         dump_stacks();
         _exit(3);
       }
